@@ -125,6 +125,7 @@ private:
     int interp_;
     int decim_;
     int sublen_;
+    int delay_{0};
     std::vector<uint16_t> xidxs_;
 };
 
